@@ -340,6 +340,76 @@ def h_paging(cx, shape, site, cond, project, sort, timeseries):
     cx.observe("instants", [instant_of(g["connectionTime"]) for g in got if is_parsed(g["connectionTime"])])
 
 
+class Server2:
+    """two result sets behind one API: the first request of a query names its site, later pages are reached through its own links"""
+
+    def __init__(self, sets):
+        self.sets, self.log = sets, []
+
+    def get(self, url, auth=None, **kw):
+        self.log.append(("GET", url, auth, kw))
+        if url.startswith(BASE + "sessions/"):
+            site, idx = url[len(BASE + "sessions/"):].split("?")[0], 0
+        elif url.startswith(BASE + "page/"):
+            site, idx = url[len(BASE + "page/"):].split("?")[0].split("/")
+            idx = int(idx)
+        else:
+            raise RuntimeError("client requested an unknown URL: %s" % url)
+        pages = self.sets[site]
+        links = {"self": {"href": "x"}, "parent": {"href": "/"}}
+        if idx + 1 < len(pages):
+            links["next"] = {"href": "page/%s/%d?token=abc" % (site, idx + 1)}
+        return Resp({"_items": pages[idx], "_links": links, "_meta": {"page": idx + 1}})
+
+
+def h_two_queries(cx, shape_a, shape_b, pattern):
+    """two session generators obtained from ONE client and consumed with overlap: each yields exactly its own result set, in
+    server order (a generator owns its position in the paging; nothing of it lives on the client)"""
+    import acnportal.acndata.data_client as DC
+
+    install_time(cx)
+    sets, truths = {}, {}
+    for site, shape in (("caltech", shape_a), ("jpl", shape_b)):
+        pages, tr = [], []
+        for p, k in enumerate(shape):
+            page = []
+            for i in range(k):
+                d, t = make_doc(cx, "%s_%d_%d" % (site[0], p, i), with_ts=False)
+                page.append(d)
+                tr.append(t)
+            pages.append(page)
+        sets[site], truths[site] = pages, tr
+    srv = Server2(sets)
+    cx.patch(DC, "requests", srv, sym_only=False)
+    client = DC.DataClient("TOKEN", url=BASE)
+    ga, gb = client.get_sessions("caltech"), client.get_sessions("jpl")
+    got = {"caltech": [], "jpl": []}
+    if pattern == "lockstep":
+        ia, ib = iter(ga), iter(gb)
+        alive = [("caltech", ia), ("jpl", ib)]
+        while alive:
+            for site, it in list(alive):
+                try:
+                    got[site].append(next(it))
+                except StopIteration:
+                    alive.remove((site, it))
+    else:  # nested: A is started, B runs to completion, A is resumed
+        ia = iter(ga)
+        first = next(ia, None)
+        if first is not None:
+            got["caltech"].append(first)
+        got["jpl"] = list(gb)
+        got["caltech"].extend(ia)
+    cx.tag("two_queries:" + pattern)
+    for site in ("caltech", "jpl"):
+        cx.check("%s:yielded_count" % site, len(got[site]) == len(truths[site]), note="%d yielded, %d on the server" % (len(got[site]), len(truths[site])))
+        for k, (g, t) in enumerate(zip(got[site], truths[site])):
+            cx.check("%s:yielded[%d]_is_its_server_item" % (site, k), eq(g["_id"], t["id"]))
+    gets = [x for x in srv.log if x[0] == "GET"]
+    cx.check("one_request_per_page_of_each_query", len(gets) == len(shape_a) + len(shape_b), note="%d requests" % len(gets))
+    cx.observe("n", [len(got["caltech"]), len(got["jpl"])])
+
+
 def h_invalid_site(cx, site):
     import acnportal.acndata.data_client as DC
 
@@ -381,7 +451,7 @@ def h_by_time(cx, has_start, has_end, has_min, timeseries, count):
         start = _dt.datetime.fromtimestamp(t_start, pytz.timezone(TZNAME))
         end = _dt.datetime.fromtimestamp(t_end, pytz.utc)
     n0 = len(cx.registry)
-    res = client.get_sessions_by_time("jpl", start=start if has_start else None, end=end if has_end else None, min_energy=7.5 if has_min else None,
+    res = client.get_sessions_by_time("jpl", start=start if has_start else None, end=end if has_end else None, min_energy=(None if not has_min else (0 if has_min == "zero" else 7.5)),
                                       timeseries=timeseries, count=count)
     if not count:
         res = list(res)
@@ -407,7 +477,7 @@ def h_by_time(cx, has_start, has_end, has_min, timeseries, count):
             else:
                 parts.append('connectionTime %s "%s"' % (op, email.utils.format_datetime(_dt.datetime.fromtimestamp(inst, _dt.timezone.utc), usegmt=True)))
     if has_min:
-        parts.append("kWhDelivered > 7.5")
+        parts.append("kWhDelivered > 0" if has_min == "zero" else "kWhDelivered > 7.5")  # an energy of 0 is a filter too
     cond = " and ".join(parts)
     if count:
         cx.check("count_request", req[0] == "HEAD" and url == BASE + "sessions/jpl?where=" + cond + "&limit=1", note=url)
@@ -467,12 +537,18 @@ def jobs(tier):
             for s in [x for x in group if len(x) == n]:
                 js.append(Job("paging[args=%d,pages=%s]" % (ai, "".join(map(str, s))), h_paging, dict(shape=s, site=site, cond=cond, project=project, sort=sort, timeseries=ts),
                               functions=FUNCS, bounds=dict(pages=len(s), items_per_page=list(s), site=site, where=cond, project=project, sort=sort, timeseries=ts), cost=sum(s) + 1))
+    for sa, sb, pat in ([((1, 1), (1, 1, 1), "lockstep"), ((2, 1), (1, 0, 1), "nested")] if q else
+                        [(a, b, pat) for a in ((1, 1), (2, 0, 1), (1,)) for b in ((1, 1, 1), (0, 2), (1, 1)) for pat in ("lockstep", "nested")]):
+        js.append(Job("two_queries[%s|%s,%s]" % ("".join(map(str, sa)), "".join(map(str, sb)), pat), h_two_queries, dict(shape_a=sa, shape_b=sb, pattern=pat), functions=FUNCS,
+                      bounds=dict(queries=2, items_per_page=[list(sa), list(sb)], consumption=pat, client="one DataClient object")))
     for site in ("Caltech", "", "jpl2"):
         js.append(Job("invalid_site[%r]" % site, h_invalid_site, dict(site=site), functions=FUNCS, bounds=dict(site=site)))
-    for hs, he, hm, ts, cnt in itertools.product((False, True), repeat=5):
-        if q and (hs + he + hm + ts + cnt) % 2 == 0 and not (hs and he and hm):
+    for hs, he, hm, ts, cnt in itertools.product((False, True), (False, True), (False, True, "zero"), (False, True), (False, True)):
+        if q and hm != "zero" and (hs + he + hm + ts + cnt) % 2 == 0 and not (hs and he and hm):
             continue
-        js.append(Job("by_time[start=%d,end=%d,min=%d,ts=%d,count=%d]" % (hs, he, hm, ts, cnt), h_by_time, dict(has_start=hs, has_end=he, has_min=hm, timeseries=ts, count=cnt),
+        if q and hm == "zero" and (hs + he + ts + cnt) % 2 == 1:
+            continue
+        js.append(Job("by_time[start=%d,end=%d,min=%s,ts=%d,count=%d]" % (hs, he, {False: "0", True: "1", "zero": "zero"}[hm], ts, cnt), h_by_time, dict(has_start=hs, has_end=he, has_min=hm, timeseries=ts, count=cnt),
                       functions=FUNCS, bounds=dict(start=hs, end=he, min_energy=hm, timeseries=ts, count=cnt)))
     js.append(Job("roundtrip", h_roundtrip, {}, functions=FUNCS, bounds=dict(instant="any whole second 2018-2021", zones="America/Los_Angeles with its real DST transitions, UTC")))
     return js
